@@ -41,6 +41,7 @@ type step struct {
 	Procs   int               `json:"procs"`
 	Ops     []string          `json:"ops"`
 	Hs      []int             `json:"hs"`
+	Frames  [][]int           `json:"frames"`
 	NoObs   bool              `json:"noobs"`
 	Observe string            `json:"observe"` // "all": attach obs of every live handle
 }
